@@ -14,7 +14,7 @@ For now, you can mentally divide this module into two sections:
    depends on some parts of the LXML module, but that could change. (The entry
    point for this is _htmldiff)
 """
-from bs4 import BeautifulSoup, Comment
+from bs4 import BeautifulSoup, Comment, NavigableString
 from collections import Counter, namedtuple
 from enum import Enum
 from functools import lru_cache
@@ -537,8 +537,12 @@ def _diffable_fragment(element):
     # https://github.com/edgi-govdata-archiving/web-monitoring-processing/issues/69#issuecomment-321424897
     for edit_tag in element.find_all(_is_ins_or_del):
         edit_tag.unwrap()
-    # Create a fragment string of just the element's contents
-    return ''.join(map(str, element.children))
+    # Create a fragment string of just the element's contents. Note that
+    # `str()` of a text node is the raw, *unescaped* text, so text nodes need
+    # to be explicitly formatted for output (which escapes `<`, `>`, `&`).
+    return ''.join(child.output_ready() if isinstance(child, NavigableString)
+                   else str(child)
+                   for child in element.children)
 
 
 def _is_ins_or_del(tag):
